@@ -155,6 +155,12 @@ def run(R):
         datasets.append((ds, L.order_ops(ds, rng, ["sorted", "reversed", "random"][i % 3]),
                          ["in memory", "on disk", None][i % 3]))
         R.count("order:huge-grid")
+    # minishards with more than 64 KiB of data (block-wise copying of the write buffers)
+    for i in range(3 if quick else 9):
+        ds = L.gen_bigpayload_dataset(rng, i)
+        datasets.append((ds, L.order_ops(ds, rng, ["random", "sorted", "reversed"][i % 3]),
+                         ["in memory", "in memory", "on disk"][i % 3]))
+        R.count("order:big-payloads")
     # all permutations of tiny chunk sets (one minishard, <= 4 or 5 entries)
     for _ in range(14 if quick else 80):
         k = rng.randrange(2, 5 if quick else 6)
